@@ -19,7 +19,9 @@ EXPLANATION = (
     "demote_local,search_and_reserve} and their closures the frames taken out of counters equal the frames given back plus "
     "the frames a successful Lower::get consumed (held == 0 at every return; on Err returns nothing was consumed). "
     "R-BALANCE-LOWER: same ledger inside Lower::get/get_at/put_small between the huge-entry counter and the bitfield. "
-    "R-STATS-MERGE: tree_stats adds every field Locals::stats writes; stats/stats_at read the huge entries."
+    "R-STATS-MERGE: tree_stats adds every field Locals::stats writes; stats/stats_at read the huge entries. "
+    "R-RESERVE-BEFORE-LOWER (shared with C15): the counter a Lower::get is charged to is the counter of the tree it allocates from "
+    "(a targeted attempt filters reservations by the frame's tree)."
 )
 
 TR = "llfree::trees::Tree::"
@@ -257,3 +259,6 @@ def run(rep, programs):
     r_balance_t(rep, prog)
     r_balance(rep, prog)
     r_stats_merge(rep, prog)
+    # the counter that is charged belongs to the tree the frame is taken from
+    from props import c15
+    c15.r_reserve_before_lower(rep, prog)
